@@ -1,8 +1,8 @@
-CONSTANTS AllCapsRule = FALSE
+CONSTANTS AllCapsRule = TRUE
           LatinLower = FALSE
           MaxToks = 2
           MaxWord = 2
 INIT TInit
 NEXT TNext
-INVARIANTS LengthKept OnlyCase FirstCap Idempotent
+INVARIANTS Idempotent
 CHECK_DEADLOCK FALSE
